@@ -162,6 +162,8 @@ def element_access(ctx, n):
 
 
 def correspondence(ctx):
+    from props import c10
+    c10.perpendicular_in_plane_stream(ctx, ctx.budget(20, 200), prefix="C04")
     import glob, json, os
     for f in sorted(glob.glob(os.path.join(os.path.dirname(__file__), "..", "..", "corpus", "C04", "*.json"))):
         replay(ctx, json.load(open(f)))
